@@ -158,6 +158,9 @@ def c03(rep, env):
         BC.check_init(rep, fb)
         only(rep, lambda r: BM.check_inplace(r, fb, crates={"cfb_mode", "cfb8", "ofb"}), pre("alias.same", "alias.no-old-output"))
         IR.check_clone_bodies(rep, fb, crates={"cfb_mode", "cfb8", "ofb"})
+        # "message of any byte length" through the Ofb stream cipher: the wrapper refuses a call
+        # longer than remaining_blocks(), so OFB must report no bound
+        MI.check_ofb_unbounded(rep, fb)
     per_config(rep, env, f)
 
 
@@ -400,7 +403,7 @@ PROOF_NOTE = ("Static decision over the generic MIR of /repo's current tree: ker
 REGISTRY = {
     "C01": {"run": c01, "level": "proof", "floors": {"inv.step.out": 6, "inv.cts.roundtrip": 36, "inv.buf.out": 2, "inv.stream": 5}},
     "C02": {"run": c02, "level": "proof", "floors": {"def.out": 6, "def.state": 8, "par.closed-form": 2, "plumb.state-borrowed": 6, "control.def": 5}},
-    "C03": {"run": c03, "level": "proof", "floors": {"def.out": 7, "def.state": 7, "par.closed-form": 2, "enc-only.kernel": 8, "buf.def": 12}},
+    "C03": {"run": c03, "level": "proof", "floors": {"def.out": 7, "def.state": 7, "par.closed-form": 2, "enc-only.kernel": 8, "buf.def": 12, "rem.ofb-unbounded": 1}},
     "C04": {"run": c04, "level": "proof", "floors": {"ctr.layout": 6, "ctr.ks.block": 6, "par.closed-form": 12, "ctr.resume": 6, "ctr.alias": 6}},
     "C05": {"run": c05, "level": "proof", "floors": {"cts.layout": 72, "cts.gate.exact": 12, "helpers.one-block": 4, "cts.init": 6}},
     "C06": {"run": c06, "level": "proof", "floors": {"belt.init": 1, "belt.ks.block": 1, "par.closed-form": 2}},
